@@ -210,6 +210,22 @@ def _unpack_lits(v):
         raise ValueError(f"unexpected type to _unpack_lits: {type(v)}")
 
 
+def _null_propagating(f):
+    """
+    Wrap a horizontal reduction so that the result is null when any argument is null
+    (pl.max_horizontal / pl.min_horizontal skip nulls, numpy.maximum / numpy.minimum propagate them).
+    """
+
+    def g(*args):
+        return (
+            pl.when(pl.any_horizontal([a.is_null() for a in args]))
+            .then(pl.lit(None))
+            .otherwise(f(args))
+        )
+
+    return g
+
+
 def _mapv(a, b: Dict, c):
     # TODO: find out if there is another way to do this
     assert isinstance(b, Dict)
@@ -572,8 +588,8 @@ class PolarsModel(data_algebra.data_model.DataModel):
             "concat": lambda *args: pl.concat_str(args),
             "fmax": lambda *args: pl.max_horizontal(args),
             "fmin": lambda *args: pl.min_horizontal(args),
-            "maximum": lambda *args: pl.max_horizontal(args),
-            "minimum": lambda *args: pl.min_horizontal(args),
+            "maximum": _null_propagating(pl.max_horizontal),
+            "minimum": _null_propagating(pl.min_horizontal),
             "+": _reduce_plus,
             "*": _reduce_times,
             "and": _reduce_and,
